@@ -29,6 +29,8 @@ pub struct World {
     pub preempt_list: Vec<(usize, usize, u32)>,
     pub probes: Vec<usize>,
     pub long_runs: u64,
+    /// (a, b): b compiled right after a on one worker; a and b from the same workload directory
+    pub siblings_list: Vec<(usize, usize)>,
 }
 
 /// Steps of a solo trace worth a systematic fault/preemption: the first two and the last
@@ -161,7 +163,34 @@ impl World {
             }
         }
         let long_runs = if thorough { 256 } else { 32 };
-        World { seed, thorough, tasks, info, pool, by_site, crash_list, ecrash_list, preempt_list, probes, long_runs }
+        // siblings: modules of one workload directory hold the same kind of content (the same tag names,
+        // attribute names, type names, in other arrangements) - which is where state keyed on too little
+        // bites. Every module A (own option set, comments on) is followed by up to `partners` others of its
+        // directory, chosen by a seeded shuffle; thorough: by all of them.
+        let mut dirs: BTreeMap<String, Vec<usize>> = BTreeMap::new();
+        for &i in &pool {
+            if tasks[i].opt_name == "own" && tasks[i].comments && !tasks[i].script {
+                let dir = tasks[i].name.rsplit_once('/').map(|x| x.0.to_string()).unwrap_or_default();
+                // the repository's fixtures are one directory per fixture: group them by their parent
+                let dir = if dir.starts_with("fixture/") { dir.rsplit_once('/').map(|x| x.0.to_string()).unwrap_or(dir) } else { dir };
+                dirs.entry(dir).or_default().push(i);
+            }
+        }
+        let partners = if thorough { usize::MAX } else { 10 };
+        let mut siblings_list = vec![];
+        let mut rng = Rng::new(mix(seed ^ 0x5349_424c));
+        for (_d, v) in &dirs {
+            for &a in v {
+                let mut others: Vec<usize> = v.iter().copied().filter(|b| *b != a).collect();
+                for i in (1..others.len()).rev() {
+                    others.swap(i, rng.below(i + 1));
+                }
+                for &b in others.iter().take(partners) {
+                    siblings_list.push((a, b));
+                }
+            }
+        }
+        World { seed, thorough, tasks, info, pool, by_site, crash_list, ecrash_list, preempt_list, probes, long_runs, siblings_list }
     }
 
     fn base(&self, stratum: &str, run: u64) -> Plan {
@@ -190,6 +219,7 @@ impl World {
             "preempt" => self.preempt_list.len() as u64,
             "random" => random_runs,
             "long" => self.long_runs,
+            "siblings" => self.siblings_list.len() as u64,
             _ => 0,
         }
     }
@@ -214,6 +244,14 @@ impl World {
         }
         p.tasks = vec![t0, self.tasks[i].clone(), self.tasks[u].clone()];
         p.opts_per_task = run % 2 == 1;
+        // mostly the native-host topology (everything shared); every fourth run the test-harness one
+        // (fresh Globals and SourceMap per file: equal absolute positions, equal mark numbers), every
+        // other fourth a private comments store per file
+        match run % 4 {
+            2 => p.globals = GlobalsMode::PerTask,
+            3 => p.store = StoreMode::PerTask,
+            _ => {}
+        }
         (p, vec![])
     }
 
@@ -223,6 +261,11 @@ impl World {
         let (a, b, k) = self.preempt_list[run as usize];
         p.workers = 2;
         p.opts_per_task = run % 2 == 1;
+        match run % 4 {
+            2 => p.globals = GlobalsMode::PerTask,
+            3 => p.store = StoreMode::PerTask,
+            _ => {}
+        }
         p.tasks = vec![self.tasks[a].clone(), self.tasks[b].clone()];
         let mut script = vec![Action::Dispatch(0)];
         for _ in 1..k {
@@ -351,6 +394,20 @@ impl World {
         (p, vec![])
     }
 
+    /// stratum 6: A, then B, then A again, one after another on one worker - both of one workload directory
+    pub fn siblings_plan(&self, run: u64) -> (Plan, Vec<Action>) {
+        let mut p = self.base("siblings", run);
+        let (a, b) = self.siblings_list[run as usize];
+        p.opts_per_task = run % 2 == 0;
+        match run % 4 {
+            1 => p.globals = GlobalsMode::PerTask,
+            3 => p.store = StoreMode::PerTask,
+            _ => {}
+        }
+        p.tasks = vec![self.tasks[a].clone(), self.tasks[b].clone(), self.tasks[a].clone()];
+        (p, vec![])
+    }
+
     fn index_of(&self, t: &PlanTask) -> usize {
         self.tasks.iter().position(|x| x.name == t.name && x.opt_name == t.opt_name && x.comments == t.comments).expect("task from the workload")
     }
@@ -361,6 +418,7 @@ impl World {
             "preempt" => self.preempt_plan(run),
             "random" => self.random_plan(run),
             "long" => self.long_plan(run),
+            "siblings" => self.siblings_plan(run),
             _ => panic!("unknown stratum {stratum}"),
         }
     }
